@@ -344,6 +344,155 @@ example : (ofinal (List.replicate 2 OSet.empty)
      .symDiffUpdate 0 (.reg 1), .pop 1]).map (·.lst) = [[9], [4, 2]] := by decide
 example : OpWf (.new 0 (some (.lit ⟨.set, [1, 2]⟩))) := by intro _; decide
 
+/-! ## sequence-level refinement: the whole register file follows the reference semantics -/
+
+/-- reference state: one insertion-ordered duplicate-free list per live OrderedSet -/
+abbrev RefRegs := List (List Elem)
+
+def RefRegs.get (L : RefRegs) (r : Nat) : List Elem := L.getD r []
+
+def refSrc (L : RefRegs) : Src → List Elem
+  | .lit a => a.elems
+  | .reg r => L.get r
+
+/-- the reference ("insertion-ordered set") meaning of every operation -/
+def refStep (L : RefRegs) : OOp → RefRegs
+  | .new dst none => L.set dst []
+  | .new dst (some src) => L.set dst (firstOcc (refSrc L src))
+  | .copy dst r => L.set dst (L.get r)
+  | .add r x => L.set r (if x ∈ L.get r then L.get r else L.get r ++ [x])
+  | .remove r x => L.set r ((L.get r).filter (fun y => y != x))
+  | .discard r x => L.set r ((L.get r).filter (fun y => y != x))
+  | .pop r => L.set r (L.get r).dropLast
+  | .insert r pos x =>
+    L.set r (if x ∈ L.get r then L.get r
+      else (L.get r).take (insertPos (L.get r).length pos) ++ x :: (L.get r).drop (insertPos (L.get r).length pos))
+  | .clear r => L.set r []
+  | .getitem _ _ => L
+  | .contains _ _ => L
+  | .len _ => L
+  | .update r args =>
+    L.set r (L.get r ++ (firstOcc (args.map (refSrc L)).flatten).filter (fun y => !(L.get r).contains y))
+  | .union dst r args =>
+    L.set dst (L.get r ++ (firstOcc (args.map (refSrc L)).flatten).filter (fun y => !(L.get r).contains y))
+  | .intersection dst r args =>
+    L.set dst ((L.get r).filter (fun a => (args.map (refSrc L)).all (fun o => o.contains a)))
+  | .difference dst r args =>
+    L.set dst ((L.get r).filter (fun a => (args.map (refSrc L)).all (fun o => !o.contains a)))
+  | .symDiff dst r a =>
+    L.set dst ((L.get r).filter (fun x => !(refSrc L a).contains x)
+      ++ (firstOcc (refSrc L a)).filter (fun x => !(L.get r).contains x))
+  | .interUpdate r args =>
+    L.set r ((L.get r).filter (fun a => (args.map (refSrc L)).all (fun o => o.contains a)))
+  | .diffUpdate r args =>
+    L.set r ((L.get r).filter (fun a => (args.map (refSrc L)).all (fun o => !o.contains a)))
+  | .symDiffUpdate r a =>
+    L.set r ((L.get r).filter (fun x => !(refSrc L a).contains x)
+      ++ (firstOcc (refSrc L a)).filter (fun x => !(L.get r).contains x))
+
+def lsts (rs : Regs) : RefRegs := rs.map (·.lst)
+
+theorem lsts_get (rs : Regs) (r : Nat) : (lsts rs).get r = (rs.get r).lst := by
+  unfold lsts RefRegs.get Regs.get
+  rw [List.getD_eq_getElem?_getD, List.getD_eq_getElem?_getD, List.getElem?_map]
+  cases rs[r]? <;> rfl
+
+theorem lsts_set (rs : Regs) (r : Nat) (s : OSet) : lsts (rs.set r s) = (lsts rs).set r s.lst := by
+  unfold lsts; rw [List.map_set]
+
+theorem refSrc_eq (rs : Regs) (a : Src) : refSrc (lsts rs) a = Src.elems rs a := by
+  cases a with
+  | lit a => rfl
+  | reg r => simp only [refSrc, Src.elems, Src.arg]; exact lsts_get rs r
+
+theorem refSrc_map (rs : Regs) (args : List Src) :
+    args.map (refSrc (lsts rs)) = args.map (Src.elems rs) := by
+  apply List.map_congr_left; intro a _; exact refSrc_eq rs a
+
+/-- one step: the `_list`s of all live sets after the real operation are the reference step -/
+theorem ostep_refines {rs : Regs} (h : AllInv rs) (op : OOp) (hw : OpWf op) :
+    lsts (ostep rs op).1 = refStep (lsts rs) op := by
+  cases op with
+  | new dst a =>
+    cases a with
+    | none => simp only [ostep, refStep, Option.map_none, lsts_set]; rfl
+    | some src =>
+      simp only [ostep, refStep, Option.map_some, lsts_set, refSrc_eq]
+      cases src with
+      | lit a =>
+        show List.set (lsts rs) dst (OSet.init (some a)).lst = _
+        rw [init_spec a hw]; rfl
+      | reg r =>
+        show List.set (lsts rs) dst (OSet.init (some (Src.arg rs (.reg r)))).lst = _
+        rw [init_spec _ (src_arg_wf h r)]; rfl
+  | copy dst r => simp only [ostep, refStep, lsts_set, lsts_get]; rfl
+  | add r x => simp only [ostep, refStep, lsts_set, lsts_get, add_spec (get_inv h r)]
+  | remove r x =>
+    simp only [ostep, refStep, lsts_set, lsts_get]
+    congr 1
+    by_cases hx : x ∈ (rs.get r).lst
+    · exact ((remove_spec (get_inv h r) x).1 hx).1
+    · rw [(remove_spec (get_inv h r) x).2 hx]
+      simp only
+      symm
+      rw [List.filter_eq_self]
+      intro y hy
+      simp only [bne_iff_ne, ne_eq]
+      rintro rfl
+      exact hx hy
+  | discard r x =>
+    simp only [ostep, refStep, lsts_set, lsts_get]
+    congr 1
+    exact (discard_spec (get_inv h r) x).1
+  | pop r =>
+    simp only [ostep, refStep, lsts_set, lsts_get]
+    congr 1
+    rcases List.eq_nil_or_concat (rs.get r).lst with hl | ⟨l, v, hl⟩
+    · rw [pop_nil hl, hl]; rfl
+    · rw [List.concat_eq_append] at hl
+      rw [((pop_spec (get_inv h r)).2 l v hl).1, hl, List.dropLast_concat]
+  | insert r pos x =>
+    simp only [ostep, refStep, lsts_set, lsts_get, insert_spec (get_inv h r)]
+  | clear r => simp only [ostep, refStep, lsts_set]; rfl
+  | getitem r key => rfl
+  | contains r x => rfl
+  | len r => rfl
+  | update r args =>
+    simp only [ostep, refStep, lsts_set, lsts_get, refSrc_map, update_spec (get_inv h r)]
+  | union dst r args =>
+    simp only [ostep, refStep, lsts_set, lsts_get, refSrc_map, union_spec (get_inv h r)]
+  | intersection dst r args =>
+    simp only [ostep, refStep, lsts_set, lsts_get, refSrc_map, (intersection_spec (get_inv h r) _).1]
+  | difference dst r args =>
+    simp only [ostep, refStep, lsts_set, lsts_get, refSrc_map, (difference_spec (get_inv h r) _).1]
+  | symDiff dst r a =>
+    simp only [ostep, refStep, lsts_set, lsts_get, refSrc_eq, (symmetric_difference_spec (get_inv h r) _).1]
+  | interUpdate r args =>
+    simp only [ostep, refStep, lsts_set, lsts_get, refSrc_map, (intersection_spec (get_inv h r) _).2]
+  | diffUpdate r args =>
+    simp only [ostep, refStep, lsts_set, lsts_get, refSrc_map, (difference_spec (get_inv h r) _).2]
+  | symDiffUpdate r a =>
+    simp only [ostep, refStep, lsts_set, lsts_get, refSrc_eq]
+    rw [(symmetric_difference_spec (get_inv h r) _).2, (symmetric_difference_spec (get_inv h r) _).1]
+
+/-- **orderedset_refines_reference**: for any operation history (any number of live sets, any
+    arguments, sets used as each other's arguments) the iteration order of every live
+    OrderedSet is what the insertion-ordered-set reference computes -/
+theorem orderedset_refines_reference (ops : List OOp) : ∀ (rs : Regs), AllInv rs →
+    (∀ op ∈ ops, OpWf op) →
+    lsts (ofinal rs ops) = ops.foldl refStep (lsts rs) := by
+  induction ops with
+  | nil => intro rs _ _; rfl
+  | cons op ops ih =>
+    intro rs h hw
+    have h1 := ostep_inv h op (hw op (by simp))
+    have h2 := ostep_refines h op (hw op (by simp))
+    show lsts (ofinal (ostep rs op).1 ops) = ops.foldl refStep (refStep (lsts rs) op)
+    rw [ih _ h1 (fun o ho => hw o (by simp [ho])), h2]
+
+example : [.new 0 (some (.lit ⟨.sized, [4, 2, 4]⟩)), .union 1 0 [.lit ⟨.iter, [9, 2, 9]⟩, .reg 0],
+    .symDiffUpdate 0 (.reg 1), .pop 1].foldl refStep [[], []] = [[9], [4, 2]] := by decide
+
 /-! # part 2: IdentitySet — a set keyed on object identity, insertion ordered -/
 
 def IAllInv (rs : IRegs) : Prop := ∀ m ∈ rs, m.Nodup
